@@ -24,7 +24,13 @@ def build(rng, facts, name):
         f = rng.choice([Fraction(2), Fraction(1, 2), Fraction(4), Fraction(1, 8)])
         ws = [rng.choice([0.3, 0.2, 0.1, 1.1, None]) for _ in vals] if rng.random() < 0.5 else [float(2 ** 53)] + [None] * (len(vals) - 1)
         vals = sorted(vals, reverse=True)          # decreasing index order of arrival
-    if n >= 20: vals += [vals[0]] * 70; ws += [None] * 70          # enough unit entries to have both buffered and paged indexes
+    # one history in seven: a paginated store whose indexes are all (or mostly) unit entries still in the buffer, small integer and other factors
+    if rng.random() < 0.15 and not getattr(b, "no_model", False):
+        b.lines = []; b.exp = []; b.vals = {}; b.knew("a", spec, "pag", "pag", exact); b.knew("s", spec, "pag", "pag", exact)
+        f = rng.choice([Fraction(2), Fraction(3), Fraction(4), Fraction(8), Fraction(1, 2), Fraction(5), Fraction(7, 4)])
+        n = rng.choice([2, 3, 5, 9, 20, 50]); vals = rand_values(rng, n, -2, 2, zeros=0.05); ws = [None if rng.random() < 0.9 else 2.0 for _ in vals]
+        if rng.random() < 0.3: vals.append(facts[spec]["min"]); ws.append(None); vals.append(-facts[spec]["min"]); ws.append(None)          # the smallest indexable magnitude counts as 0
+    elif n >= 20: vals += [vals[0]] * 70; ws += [None] * 70          # enough unit entries to have both buffered and paged indexes
     for v, w in zip(vals, ws):
         b.kadd("a", v, w)
         b.kadd("s", v, float((Fraction(1) if w is None else Fraction(w)) * f))
